@@ -55,13 +55,17 @@ PROPS["C02"] = dict(
         "fork schedules where electra is reached are out of scope (S has no electra); ELECTRA_FORK_EPOCH is kept at FAR_FUTURE",
     ],
     manifest=dict(
-        level_text="Lean theorems M = S for all inputs (no size bound) for the sub-transitions where zrnt's algorithm differs in shape from the spec "
-                   "(justification bits as a byte, effective-balance hysteresis, slashings, batched registry update), plus a differential run of the real "
-                   "Go code against the executable Lean specification S for every epoch sub-transition, whole ProcessSlots spans and the four fork "
-                   "upgrades on synthetic states of all five forks and several parameter sets",
+        level_text="Lean theorems M = S for all inputs (no size bound) for every sub-transition where zrnt's algorithm differs in shape from the spec: "
+                   "the whole registry update (one-scan batched exit queue = sequential initiate_validator_exit, eligibility marks, sorted-prefix "
+                   "activations incl. deneb's activation churn limit: registry_updates_eq), justification/finalization on the bits byte (justification_eq), "
+                   "effective-balance hysteresis read from the start-of-epoch snapshot (effectiveBalance_snapshot_eq), slashings (slashings_eq); plus a "
+                   "differential run of the real Go code against the executable Lean specification S for every epoch sub-transition, whole ProcessSlots "
+                   "spans and the four fork upgrades, on synthetic states of all five forks under several parameter sets and on states reached by valid "
+                   "chains with blocks",
         level_note="trusted: Lean kernel, the specification transcription S, the flat exchange format, harness generator; state roots and BLS aggregates "
                    "are inputs from the Go side; sub-transitions without a separate M (rewards, inactivity, resets, historical, participation, sync "
-                   "committees, process_slot, upgrades) rest on the correspondence Go = S only",
+                   "committees, process_slot, upgrades) rest on the correspondence Go = S only; no end-to-end processSlots_eq theorem (the monadic "
+                   "wrappers of S are not composed in Lean)",
         technique="Lean 4 refinement proofs (code-shaped model = spec) + Go/Lean differential correspondence on flat states",
         design_ref="DESIGN.md 5/C02", engine="lean"),
 )
